@@ -2,6 +2,7 @@
 
 PROPS = {
     "C01": {
+        "stall_is_violation": True,
         "test": "TestC01", "level": "exploration", "registered": True, "engine": "sim",
         "technique": "runtime monitor over recorded probe/request/command events of the real router in virtual time (testing/synctest), generated probe histories",
         "level_text": "Generated probe histories x deadline placements x slots are executed against the real Router in a virtual-time bubble; an oracle over the fake targets' own logs (first accepted 2xx probe per target, arrival time of every client request) and the command result decides the property on each execution. Held-on-K-executions evidence, not a proof.",
@@ -58,6 +59,7 @@ PROPS["C09"] = {
 }
 
 PROPS["C17"] = {
+    "stall_is_violation": True,
     "test": "TestC17", "level": "exploration", "registered": True, "engine": "sim",
     "shards_quick": 8, "shards_thorough": 16, "timeout": 900,
     "technique": "runtime monitor comparing exact virtual return instants of commands with bounds computed from target-side logs; probe logs watched after disposal",
@@ -159,6 +161,7 @@ PROPS["C14"] = {
 }
 
 PROPS["C15"] = {
+    "stall_is_violation": True,
     "test": "TestC15", "level": "fault_enumeration", "registered": True, "engine": "sim", "race_pass": {"env": {"VERIF_C15_ONLY": "burst"}, "shards": 3}, "race_is_violation": True, "race_only_matching": r"ErrorPageMiddleware|error_page_middleware\.go",
     "shards_quick": 8, "shards_thorough": 16, "timeout": 900,
     "technique": "fault enumeration at every point of the target connection in virtual time; raw client parser as well-formedness oracle; exact virtual instants for 502/504",
@@ -199,6 +202,7 @@ PROPS["C20"] = {
 }
 
 PROPS["C18"] = {
+    "stall_is_violation": True,
     "test": "TestC18", "level": "exploration", "registered": True, "engine": "live", "race": True, "race_is_violation": True, "handler_panic_is_violation": True,
     "shards_quick": 8, "shards_thorough": 16, "timeout": 1500, "min_classes": 10,
     "technique": "Go race detector over a repeated real-concurrency stress (real sockets, 16 cores, hook jitter), crash attribution by journal, bounded-progress epilogue with goroutine-dump classifier",
@@ -210,7 +214,7 @@ PROPS["C18"] = {
 
 ENGINES = [
     {"name": "live", "path": "/verif/harness (c18_test.go)", "kind_free_text": "real Server on loopback TCP with real HTTP targets and clients, built with -race, random jitter at hook points; race reports parsed from GORACE logs by tools/racelog.py", "serves_properties": ["C18"]},
-    {"name": "sim+binary", "path": "/verif/harness (c12_test.go, c20_test.go, procs_test.go)", "kind_free_text": "the real kamal-proxy binary built from the working tree with the repository's own toolchain, run with scratch HOME/XDG_RUNTIME_DIR against real HTTP targets; SIGKILL at hook points (VERIF_CRASH) or injected by strace; CLI driven as a user would", "serves_properties": ["C12", "C20"]},
+    {"name": "sim+binary", "path": "/verif/harness (c12_test.go, c20_test.go, procs_test.go)", "kind_free_text": "the real kamal-proxy binary built from the working tree with the repository's own toolchain, run with scratch HOME/XDG_RUNTIME_DIR against real HTTP targets; SIGKILL at hook points (VERIF_CRASH) or injected by strace; CLI driven as a user would", "serves_properties": ["C12", "C14", "C20"]},
     {"name": "sim", "path": "/verif/harness (world_test.go)", "kind_free_text": "real internal/server code in a testing/synctest bubble (virtual time) on an in-memory network with scripted fake targets and hook-placed delays; monitors judge recorded events", "serves_properties": []},
 ]
 
